@@ -12,15 +12,20 @@
 //                       (b0 b1 = re-marshalled bytes) or (0 code)
 //   (6 obj sr ch)       AudioSpecificConfig{obj,sr,ch}.MarshalBinary     -> (0 bytes) | (1 code)
 //   (7 v)               SampleRateIndex(v).ToHz, ObjectType(v).ToProfile, Profile(v).ToObjectType
-//                       -> (0 hz profile object) | (2)
+//                       and the texts of the four String helpers -> (0 hz profile object s1 s2 s3 s4) | (2)
 //   (8 cfg raw)         NewADTS(); SetASC(cfg); Encode(raw); Decode(output), all on the same object
 //                       -> (<set> (0 adts <dec>)) | (<set> (1 code)),  <set> = (0 obj sr ch) | (1 code obj sr ch)
 //   (9 id layer pa profile sfi priv ch orig home cbit cstart fullness nblocks crc raw tail)
 //                       frame written by the reference ISO 13818-7 writer ++ tail, Decode
 //                       -> (0 frame <dec>)
+//   (10 id pa profile sfi ch (block...) tail)
+//                       frame with number_of_raw_data_blocks_in_frame = #blocks-1 > 0 written by the reference
+//                       writer (header crc 0xa5a5, crc of block i 0xc300+i, fullness 0x7ff) ++ tail, Decode
+//                       -> (0 frame <dec>)
 //   <dec> = (0 raw left obj sr ch) | (1 code obj sr ch) | (2)      (obj sr ch = ASC() afterwards)
 // Error codes: 1 "requires 7+", 2 "invalid signature", 3 "requires 2+" (CRC), 4 "requires n"
-// (raw block), 5 invalid object, 6 invalid sample-rate, 7 invalid channels, 8 ASC "requires 2".
+// (raw block), 5 invalid object, 6 invalid sample-rate, 7 invalid channels, 8 ASC "requires 2",
+// 9 "invalid frame length" (smaller than the header).
 //
 // Direct oracles (independent of the Coq model): a reference ISO ADTS bit writer and bit
 // parser written from ISO/IEC 13818-7 6.2, the ISO sampling-frequency table, the
@@ -86,6 +91,50 @@ func vC11IsoFrame(h vC11Hdr, raw []byte) []byte {
 		w.put(h.crc, 16)
 	}
 	return append(w.b, raw...)
+}
+
+// adts_frame() with several raw data blocks (ISO 13818-7 6.2.1): with protection the header is
+// followed by raw_data_block_position[1..n] and a crc_check, and every block by its own crc_check
+func vC11IsoFrameMulti(h vC11Hdr, blocks [][]byte) []byte {
+	var body []byte
+	if h.pa == 0 {
+		w := &vC11BitW{}
+		off := 0
+		for i, b := range blocks {
+			if i > 0 {
+				w.put(uint(off), 16)
+			}
+			off += len(b) + 2
+		}
+		w.put(h.crc, 16)
+		body = w.b
+		for i, b := range blocks {
+			body = append(body, b...)
+			c := 0xc300 + i
+			body = append(body, byte(c>>8), byte(c))
+		}
+	} else {
+		for _, b := range blocks {
+			body = append(body, b...)
+		}
+	}
+	w := &vC11BitW{}
+	w.put(0xfff, 12)
+	w.put(h.id, 1)
+	w.put(h.layer, 2)
+	w.put(h.pa, 1)
+	w.put(h.profile, 2)
+	w.put(h.sfi, 4)
+	w.put(h.priv, 1)
+	w.put(h.ch, 3)
+	w.put(h.orig, 1)
+	w.put(h.home, 1)
+	w.put(h.cbit, 1)
+	w.put(h.cstart, 1)
+	w.put(uint(7+len(body)), 13)
+	w.put(h.fullness, 11)
+	w.put(uint(len(blocks)-1), 2)
+	return append(w.b, body...)
 }
 
 type vC11BitR struct {
@@ -175,6 +224,8 @@ func vC11Code(err error, asc bool) int {
 		return 1
 	case strings.HasPrefix(m, "invalid signature"):
 		return 2
+	case strings.HasPrefix(m, "invalid frame length"):
+		return 9
 	case strings.HasPrefix(m, "requires 2+"):
 		return 3
 	case strings.HasPrefix(m, "requires "):
@@ -220,6 +271,7 @@ func (d vC11Dec) obs() vSx {
 type vC11Res struct {
 	obs        vSx
 	oracle     string
+	key        string // known-finding classifier of this failure shape, or ""
 	detail     string
 	nontrivial bool
 }
@@ -328,6 +380,13 @@ func vC11Run(c vSx) (r vC11Res) {
 		d := vC11Decode(&ADTSImpl{}, data)
 		r.obs = d.obs()
 		r.checkDecode("decode", data, d)
+		if len(data) > 7 && data[0] == 0xff && data[1]&0xf0 == 0xf0 && !d.panicked && d.err == nil {
+			fl := int(data[3]&3)<<11 | int(data[4])<<3 | int(data[5])>>5
+			hdr := 9 - 2*int(data[1]&1)
+			if fl < hdr || len(d.raw) != fl-hdr {
+				r.bad("frame-length", fmt.Sprintf("frame_length %d with a %d-byte header decoded to a %d-byte raw block", fl, hdr, len(d.raw)))
+			}
+		}
 	case 3:
 		data := c.l[1].b
 		a := &ADTSImpl{}
@@ -442,8 +501,8 @@ func vC11Run(c vSx) (r vC11Res) {
 		hz := SampleRateIndex(v).ToHz()
 		p := ObjectType(v).ToProfile()
 		ot := Profile(v).ToObjectType()
-		_ = SampleRateIndex(v).String() + ObjectType(v).String() + Profile(v).String() + Channels(v).String()
-		r.obs = vOk(vI(hz), vI(int(p)), vI(int(ot)))
+		r.obs = vOk(vI(hz), vI(int(p)), vI(int(ot)), vS(ObjectType(v).String()), vS(Profile(v).String()),
+			vS(SampleRateIndex(v).String()), vS(Channels(v).String()))
 		r.nontrivial = v <= 12
 		if v <= 12 && hz != vC11IsoHz[v] {
 			r.bad("hz-table", fmt.Sprintf("index %d gives %d Hz, ISO table says %d", v, hz, vC11IsoHz[v]))
@@ -494,6 +553,52 @@ func vC11Run(c vSx) (r vC11Res) {
 					r.bad("setasc-rt", fmt.Sprintf("config %04x, raw %d bytes: decoded %d bytes, %d left, config (%d,%d,%d), err %v", v, len(raw), len(d.raw), len(d.left), d.o, d.sr, d.ch, d.err))
 				}
 			}
+		}
+	case 10:
+		h := vC11Hdr{id: uint(c.l[1].int()), pa: uint(c.l[2].int()), profile: uint(c.l[3].int()), sfi: uint(c.l[4].int()),
+			ch: uint(c.l[5].int()), fullness: 0x7ff, crc: 0xa5a5}
+		var blocks [][]byte
+		var all []byte
+		for _, b := range c.l[6].l {
+			blocks = append(blocks, b.b)
+			all = append(all, b.b...)
+		}
+		tail := c.l[7].b
+		if len(blocks) == 0 {
+			r.obs = vL(vZ(-1))
+			return
+		}
+		frame := vC11IsoFrameMulti(h, blocks)
+		d := vC11Decode(&ADTSImpl{}, append(append([]byte{}, frame...), tail...))
+		r.obs = vOk(vB(frame), d.obs())
+		conformant := len(blocks) >= 2 && len(blocks) <= 4 && h.id <= 1 && h.pa <= 1 && h.profile <= 2 && h.sfi >= 1 && h.sfi <= 12 &&
+			h.ch >= 1 && h.ch <= 7 && len(frame) <= 8191
+		for _, b := range blocks {
+			if len(b) == 0 {
+				conformant = false
+			}
+		}
+		if !conformant {
+			if d.panicked {
+				r.bad("no-panic", "Decode panicked")
+			}
+			return
+		}
+		r.nontrivial = true
+		// promised for every conformant frame: framing and configuration
+		if d.panicked || d.err != nil {
+			r.bad("multi-rdb-framing", fmt.Sprintf("conformant frame with %d raw data blocks (pa=%d) rejected: %v", len(blocks), h.pa, d.err))
+		} else if !bytes.Equal(d.left, tail) {
+			r.bad("multi-rdb-framing", fmt.Sprintf("%d raw data blocks, pa=%d: remainder %d bytes, want %d (next sync word)", len(blocks), h.pa, len(d.left), len(tail)))
+		} else if vC11ProfileOf(d.o) != int(h.profile) || d.sr != int(h.sfi) || d.ch != int(h.ch) {
+			r.bad("iso-reader-config", fmt.Sprintf("profile=%d sfi=%d ch=%d reported as (%d,%d,%d)", h.profile, h.sfi, h.ch, d.o, d.sr, d.ch))
+		} else if !bytes.Equal(d.raw, all) {
+			// the raw data of the frame is its raw data blocks; with protection the library also
+			// returns the position table and the CRCs (known finding multi-rdb-crc)
+			if h.pa == 0 && len(d.raw) == len(frame)-9 && bytes.Equal(d.raw, frame[9:]) {
+				r.key = "multi-rdb-crc"
+			}
+			r.bad("multi-rdb-raw", fmt.Sprintf("%d raw data blocks, pa=%d: raw has %d bytes, the blocks have %d", len(blocks), h.pa, len(d.raw), len(all)))
 		}
 	case 9:
 		f := c.l
@@ -554,7 +659,28 @@ func (r *vC11Res) checkAsc(b0, b1 byte, accepted bool, o, sr, ch int, back []byt
 
 // ---------- generators ----------
 var vC11Objs = []int{1, 2, 3, 5, 29}
-var vC11Lens = []int{1, 2, 3, 8, 9, 25, 248, 249, 250, 1016, 1017, 2040, 2041, 2042, 4088, 4089, 8180, 8181, 8182, 8183, 8184}
+// aac_frame_length values at the edges of the 13-bit field's three byte positions (bits 12..11
+// in byte 3, 10..3 in byte 4, 2..0 in byte 5); the first vC11SmallFL of them are small
+var vC11FrameLens = []int{0, 15, 16, 17, 255, 256, 257, 2047, 2048, 2049, 4095, 4096, 4097, 6143, 6144, 8184, 8190, 8191}
+
+const vC11SmallFL = 7
+
+// raw length giving the i-th boundary frame length with a header of hdr bytes (entry 0 = 1 raw byte)
+func vC11RawFor(i, hdr int) int {
+	fl := vC11FrameLens[i%len(vC11FrameLens)]
+	if fl == 0 {
+		return 1
+	}
+	return fl - hdr
+}
+
+var vC11Lens = func() []int {
+	var out []int
+	for i := range vC11FrameLens {
+		out = append(out, vC11RawFor(i, 7), vC11RawFor(i, 9))
+	}
+	return append(out, 8183)
+}()
 
 func vC11RawLen(rnd *vRng, max int) int {
 	var n int
@@ -637,6 +763,25 @@ func vC11Gen(rnd *vRng) vSx {
 			}
 		}
 		return vC11HdrCase(h, raw, tail)
+	case p < 57: // several raw data blocks
+		h := vC11GenHdr(rnd, true)
+		nb := rnd.rng(2, 4)
+		if rnd.chance(1, 15) {
+			nb = rnd.pickInt(1, 5)
+		}
+		var bl []vSx
+		for i := 0; i < nb; i++ {
+			n := rnd.rng(1, 40)
+			if rnd.chance(1, 6) {
+				n = rnd.rng(1, 1900)
+			}
+			bl = append(bl, vB(rnd.bytes(n)))
+		}
+		var tail []byte
+		if rnd.chance(1, 2) {
+			tail = []byte{0xff, 0xf1, byte(rnd.intn(256))}
+		}
+		return vL(vZ(10), vI(int(h.id)), vI(int(h.pa)), vI(int(h.profile)), vI(int(h.sfi)), vI(int(h.ch)), vLs(bl), vB(tail))
 	case p < 72: // streams
 		var data []byte
 		nf := rnd.rng(1, 6)
@@ -725,7 +870,7 @@ func TestVerifC11(t *testing.T) {
 			k.count("result-class", fmt.Sprint(tag, ":", r.obs.l[0].int()))
 		}
 		if r.oracle != "" {
-			k.fail(idx, c.size(), r.oracle, "", r.detail)
+			k.fail(idx, c.size(), r.oracle, r.key, r.detail)
 		}
 	}
 	if k.replay != nil {
@@ -736,33 +881,41 @@ func TestVerifC11(t *testing.T) {
 		runOne(c)
 	}
 	// exhaustive: all header field combinations profile x index x channels x id x protection
-	// (4 x 16 x 8 x 2 x 2 = 2048), each with boundary frame lengths and random payload
-	nLen := 1
-	if k.thorough() {
-		nLen = 4
-	}
+	// (4 x 16 x 8 x 2 x 2 = 2048; the other flag bits, fullness and CRC random), each with frame
+	// lengths at the boundaries of the length field and random payload.  quick: every combination
+	// with 2 boundary lengths (a large one for every 4th); thorough: every combination with all
+	// small boundary lengths and 2 large ones, so that every boundary meets every combination class
 	combo := 0
 	for profile := 0; profile < 4; profile++ {
 		for sfi := 0; sfi < 16; sfi++ {
 			for ch := 0; ch < 8; ch++ {
 				for id := 0; id < 2; id++ {
 					for pa := 0; pa < 2; pa++ {
-						for j := 0; j < nLen; j++ {
+						hdr := 9 - 2*pa
+						var idxs []int
+						nBig := len(vC11FrameLens) - vC11SmallFL
+						if k.thorough() {
+							for i := 0; i < vC11SmallFL; i++ {
+								idxs = append(idxs, i)
+							}
+							idxs = append(idxs, vC11SmallFL+combo%nBig, vC11SmallFL+(combo/nBig+combo+5)%nBig)
+						} else {
+							idxs = append(idxs, combo%vC11SmallFL)
+							if combo%4 == 0 {
+								idxs = append(idxs, vC11SmallFL+(combo/4)%nBig)
+							} else {
+								idxs = append(idxs, (combo/3+3)%vC11SmallFL)
+							}
+						}
+						for _, ix := range idxs {
 							h := vC11Hdr{id: uint(id), pa: uint(pa), profile: uint(profile), sfi: uint(sfi), ch: uint(ch), priv: uint(k.rnd.intn(2)),
 								orig: uint(k.rnd.intn(2)), home: uint(k.rnd.intn(2)), cbit: uint(k.rnd.intn(2)), cstart: uint(k.rnd.intn(2)),
-								fullness: uint(k.rnd.intn(2048)), crc: uint(k.rnd.intn(65536))}
-							n := vC11Lens[(combo+j*5)%len(vC11Lens)]
-							if n > 300 && (combo+j)%8 != 0 {
-								n = vC11Lens[(combo+j)%9]
-							}
-							if n > vC11MaxRaw(h.pa) {
-								n = vC11MaxRaw(h.pa)
-							}
+								fullness: uint(k.rnd.pickInt(0, 0x7ff, k.rnd.intn(2048))), crc: uint(k.rnd.intn(65536))}
 							var tail []byte
 							if combo%3 == 0 {
 								tail = []byte{0xff, 0xf1, byte(combo)}
 							}
-							runOne(vC11HdrCase(h, k.rnd.bytes(n), tail))
+							runOne(vC11HdrCase(h, k.rnd.bytes(vC11RawFor(ix, hdr)), tail))
 						}
 						combo++
 					}
@@ -770,26 +923,67 @@ func TestVerifC11(t *testing.T) {
 			}
 		}
 	}
-	// every accepted configuration through the encoder at boundary lengths
+	// all 2^5 combinations of the single-bit flags private/original/home/copyright x id x protection
+	for bits := 0; bits < 128; bits++ {
+		h := vC11Hdr{priv: uint(bits & 1), orig: uint(bits >> 1 & 1), home: uint(bits >> 2 & 1), cbit: uint(bits >> 3 & 1), cstart: uint(bits >> 4 & 1),
+			id: uint(bits >> 5 & 1), pa: uint(bits >> 6 & 1), profile: uint(bits % 3), sfi: uint(1 + bits%12), ch: uint(1 + bits%7),
+			fullness: uint(bits * 16), crc: uint(bits * 511)}
+		runOne(vC11HdrCase(h, k.rnd.bytes(vC11RawFor(bits, 9-2*int(h.pa))%700+1), nil))
+	}
+	// every accepted configuration through the encoder at the boundary frame lengths
+	cfg := 0
 	for _, o := range vC11Objs {
 		for sr := 1; sr <= 12; sr++ {
 			for ch := 1; ch <= 7; ch++ {
-				n := vC11Lens[(o+sr*7+ch)%len(vC11Lens)]
-				if n > 300 && !k.thorough() && (sr+ch)%6 != 0 {
-					n = vC11Lens[(sr+ch)%9]
+				if k.thorough() {
+					for i := range vC11FrameLens {
+						if i >= vC11SmallFL && (cfg+i)%3 != 0 {
+							continue
+						}
+						runOne(vL(vZ(1), vI(o), vI(sr), vI(ch), vB(k.rnd.bytes(vC11RawFor(i, 7)))))
+					}
+				} else {
+					i := cfg % vC11SmallFL
+					if cfg%6 == 0 {
+						i = vC11SmallFL + (cfg/6)%(len(vC11FrameLens)-vC11SmallFL)
+					}
+					runOne(vL(vZ(1), vI(o), vI(sr), vI(ch), vB(k.rnd.bytes(vC11RawFor(i, 7)))))
 				}
-				runOne(vL(vZ(1), vI(o), vI(sr), vI(ch), vB(k.rnd.bytes(n))))
+				cfg++
 			}
 		}
 	}
-	// frame_length smaller than the header: uint16(frame_length - header) wraps to 65529 (65527 with
-	// CRC); with that many bytes behind the header Decode returns them as one "raw block", with
-	// fewer it reports "requires n" (outside the property: not a conformant frame; the model
-	// carries the same wrap, see c11_length_underflow_quirk)
-	for _, n := range []int{65528, 65529, 65530} {
-		runOne(vL(vZ(2), vB(append([]byte{0xff, 0xf1, 0x50, 0x80, 0x00, 0x00, 0xfc}, make([]byte, n)...))))
+	// several raw data blocks: 2..4 blocks x protection x id, block sizes at the edges
+	for nb := 2; nb <= 4; nb++ {
+		for pa := 0; pa < 2; pa++ {
+			for id := 0; id < 2; id++ {
+				for _, sz := range []int{1, 2, 255, 256, 2000} {
+					var bl []vSx
+					for i := 0; i < nb; i++ {
+						n := sz
+						if i%2 == 1 {
+							n = 1 + sz/3
+						}
+						bl = append(bl, vB(k.rnd.bytes(n)))
+					}
+					runOne(vL(vZ(10), vI(id), vI(pa), vI(nb%3), vI(1+(nb*5+sz)%12), vI(1+(nb+sz)%7), vLs(bl), vB([]byte{0xff, 0xf1})))
+				}
+			}
+		}
+	}
+	// frame_length smaller than the header (fixed cd86513: used to wrap to 65529 and return that
+	// many following bytes as one raw block): must be an error whatever follows
+	for _, n := range []int{1, 65528, 65529, 65530} {
+		c := vL(vZ(2), vB(append([]byte{0xff, 0xf1, 0x50, 0x80, 0x00, 0x00, 0xfc}, make([]byte, n)...)))
+		runOne(c)
 	}
 	runOne(vL(vZ(2), vB(append([]byte{0xff, 0xf0, 0x50, 0x80, 0x00, 0x00, 0xfc, 1, 2}, make([]byte, 65527)...))))
+	for fl := 0; fl < 9; fl++ {
+		for pa := 0; pa < 2; pa++ {
+			d := append([]byte{0xff, 0xf0 | byte(pa), 0x50, 0x80, byte(fl >> 3), byte(fl<<5) | 0x1f, 0xfc}, k.rnd.bytes(40)...)
+			runOne(vL(vZ(2), vB(d)))
+		}
+	}
 	// exhaustive: all 65536 two-byte configs, all 256 enum values
 	for hi := 0; hi < 256; hi++ {
 		runOne(vL(vZ(5), vI(hi)))
